@@ -44,3 +44,74 @@ package webtransport
 //@   ensures [C15.noframe]   result1 != nil ==> result0 == noFrame
 //@   ensures [C15.closes,C10.wtclose] calls((*Conn).CloseWithError) <= 1 && (calls((*Conn).CloseWithError) == 1 ==> result1 != nil)
 //@   ensures [C15.rem]       c.readRemaining >= 0
+
+//@ func (*Conn).NextReader()
+//@   props C15, C09
+//@   requires c != nil && c.br != nil && c.session != nil && c.readRemaining >= 0 && c.readErrCount < 999
+//@   requires c.reader == nil || typeis(c.reader, *messageReader)
+//@   modifies c.reader, c.messageReader, c.readLength, c.readErr, c.readErrCount, c.readRemaining, c.br.$pos, c.br.$buffered
+//@   loop 1 invariant c.readRemaining >= 0 && c.readLength >= 0
+//@   loop 1 invariant old(c.readErr) != nil ==> c.readErr == old(c.readErr)
+//@   ensures [C15.sticky]  old(c.readErr) != nil ==> err == old(c.readErr) && c.readErr == old(c.readErr) && r == nil
+//@   ensures [C15.stored]  err != nil ==> c.readErr == err
+//@   ensures [C15.kinds]   err == nil ==> (messageType == TextMessage || messageType == BinaryMessage) && r != nil
+//@   ensures [C15.limit2,C10.wt2]  err == nil ==> (c.readLimit <= 0 || c.readLength <= c.readLimit)
+//@   ensures [C15.rem2]    c.readRemaining >= 0
+//@   ensures [C15.rdr]     c.reader == nil || typeis(c.reader, *messageReader)
+
+//@ func (*messageReader).Read(b)
+//@   props C15, C09
+//@   requires r != nil && r.c != nil && r.c.br != nil && r.c.readRemaining >= 0
+//@   modifies r.c.messageReader, r.c.readErr, r.c.readRemaining, r.c.br.$pos, r.c.br.$buffered, Mem(b)
+//@   ensures [C15.nomore]  0 <= result0 && result0 <= len(b) && result0 <= old(r.c.readRemaining)
+//@   ensures [C15.dec]     r.c.readRemaining == old(r.c.readRemaining) - result0 && r.c.readRemaining >= 0
+//@   ensures [C15.bytes]   forall k int :: 0 <= k && k < result0 ==> b[k] == uf_u8_in(r.c.br, old(r.c.br.$pos) + k)
+//@   ensures [C15.pos]     r.c.br.$pos == old(r.c.br.$pos) + result0
+//@   ensures [C15.eof]     result1 == io.EOF ==> old(r.c.messageReader) != r || r.c.readRemaining == 0
+//@   ensures [C15.sticky2] old(r.c.readErr) != nil ==> r.c.readErr == old(r.c.readErr) && result1 != nil && result0 == 0
+//@   ensures [C15.stored2] old(r.c.readErr) == nil && old(r.c.messageReader) == r && old(r.c.readRemaining) > 0 ==> r.c.readErr == result1
+//@   ensures [C15.short]   old(r.c.messageReader) == r && r.c.readErr == io.EOF ==> r.c.readRemaining == 0 || old(r.c.readErr) == io.EOF
+
+//@ func (*messageReader).Close()
+//@   props C15
+//@   ensures result == nil
+
+//@ func (*Conn).SetReadLimit(limit)
+//@   props C15, C10
+//@   requires c != nil
+//@   modifies c.readLimit
+//@   ensures [C15.setlimit,C10.setlimit] c.readLimit == limit
+
+//@ spec hdrLen(n int) int = n < 126 ? 1 : (n < 65536 ? 3 : 9)
+
+//@ func (*Conn).write(frameType, deadline, buf0, buf1)
+//@   props C13, C14, C09
+//@   requires c != nil && c.stream != nil
+//@   modifies c.writeErr, c.stream.$writes
+//@   ensures [C13.w1] result == nil ==> c.stream.$writes == old(c.stream.$writes) + 1
+//@   ensures [C13.w0] result != nil ==> c.stream.$writes == old(c.stream.$writes)
+//@   ensures [C13.werr] old(c.writeErr) != nil ==> result == old(c.writeErr)
+//@   callsite io.Writer.Write#1
+//@     assert [C14.wbuf0] $p == buf0 && len(buf1) == 0
+//@   callsite (*Conn).writeBufs#1
+//@     assert [C14.wbufs] len($bufs) == 2 && $bufs[0] == buf0 && $bufs[1] == buf1
+
+//@ func (*messageWriter).flushFrame(final, extra)
+//@   props C13, C14, C09
+//@   requires w != nil && w.c != nil && w.c.stream != nil && w.err == nil && !w.c.isWriting
+//@   requires len(w.c.writeBuf) >= 9 && 9 <= w.pos && w.pos <= len(w.c.writeBuf)
+//@   requires w.frameType == TextMessage || w.frameType == BinaryMessage
+//@   modifies w.pos, w.frameType, w.err, w.c.writer, w.c.writeBuf, w.c.isWriting, w.c.writeErr, w.c.stream.$writes, Mem(w.c.writeBuf)[0:9]
+//@   let L = w.pos - 9 + len(extra)
+//@   callsite (*Conn).write#1
+//@     assert [C14.one]   len($buf0) == hdrLen(L) + (w.pos - 9) && $buf1 == extra
+//@     assert [C14.kind]  ($buf0[0] & 0x80 != 0) <==> w.frameType == BinaryMessage
+//@     assert [C14.len7]  L < 126 ==> $buf0[0] & 0x7f == byte(L)
+//@     assert [C14.len16] 126 <= L && L < 65536 ==> $buf0[0] & 0x7f == 126 && be16($buf0, 1) == uint16(L)
+//@     assert [C14.len64] L >= 65536 ==> $buf0[0] & 0x7f == 127 && be64($buf0, 1) == uint64(L)
+//@     assert [C14.body]  forall k int :: hdrLen(L) <= k && k < len($buf0) ==> $buf0[k] == old(w.c.writeBuf[9 - hdrLen(L) + k])
+//@   ensures [C13.f1] result == nil ==> w.c.stream.$writes == old(w.c.stream.$writes) + 1
+//@   ensures [C13.f0] result != nil ==> w.c.stream.$writes == old(w.c.stream.$writes)
+//@   ensures [C13.fin] result == nil && final ==> w.err != nil && w.c.writer == nil
+//@   ensures [C13.cont] result == nil && !final ==> w.err == nil && w.pos == 9
+//@   ensures !w.c.isWriting
